@@ -86,7 +86,7 @@ def job(draw, idx: int, actors: list, *, allow_eager=True, allow_timeout=True, a
             opts.append(outcome_timeout())
         if allow_eager:
             opts.append(outcome_eager(with_sets=True))
-        if shape == "dep":
+        if shape in ("dep", "dep2"):
             opts.append(outcome_depfail())
             if allow_eager:
                 opts.append(outcome_depeager())
@@ -95,7 +95,7 @@ def job(draw, idx: int, actors: list, *, allow_eager=True, allow_timeout=True, a
                 st.fixed_dictionaries({"k": st.just("raise"), "exc": st.sampled_from(EXC_NAMES), "text": st.text("ab", max_size=3)})]
     n = draw(st.integers(1, 4))
     att = [draw(st.one_of(*opts)) for _ in range(n - 1)]
-    last_opts = opts[:2] + ([outcome_depfail()] if shape == "dep" else [])
+    last_opts = opts[:2] + ([outcome_depfail()] if shape in ("dep", "dep2") else [])
     att.append(draw(st.one_of(*last_opts)))
     j["attempts"] = att
     if shape == "req":
@@ -120,6 +120,7 @@ ACTOR_POOL = [
     {"name": "a_plain", "queue": "q0", "shape": "plain"},
     {"name": "a_req", "queue": "q0", "shape": "req"},
     {"name": "a_dep", "queue": "q1", "shape": "dep"},
+    {"name": "a_dep2", "queue": "q0", "shape": "dep2"},  # the scripted provider sits one level down (a dependency of a dependency)
     {"name": "a_sync", "queue": "q1", "shape": "sync"},
     {"name": "b_plain", "queue": "q1", "shape": "plain"},
 ]
